@@ -115,7 +115,7 @@ impl Check for C30 {
         "C30"
     }
     fn rule(&self) -> String {
-        "case = document text (generated valid grammars, token / byte level mutants, random strings, with CRLF or LF line ends and multi-byte characters in comments and literals) opened in a fresh Server (in-memory connection) x positions (every line start and end, positions inside and one beyond every line, beyond the last line, huge values) x requests: hover, go-to-definition, document symbols, prepare-rename, rename, formatting, code action with the diagnostics the server itself published; oracle: the driver's catch_unwind sees no panic and the process stays alive; pos_to_offset returns an offset <= text length that lies on a character boundary. Evaluations = requests sent. Non-trivial = position beyond a line end or inside a line with multi-byte characters; distinct by (text, position)".into()
+        "case = document text (generated valid grammars, token / byte level mutants, random strings, with LF, CRLF or per-line mixed line ends and multi-byte characters in comments at line starts and ends) opened in a fresh Server (in-memory connection) x positions (every line start and end, positions inside and one beyond every line, beyond the last line, huge values) x requests: hover, go-to-definition, document symbols, prepare-rename, rename, formatting, code action with the diagnostics the server itself published; oracle: the driver's catch_unwind sees no panic and the process stays alive; pos_to_offset returns an offset <= text length that lies on a character boundary. Evaluations = requests sent. Non-trivial = position beyond a line end or inside a line with multi-byte characters; distinct by (text, position)".into()
     }
     fn strategy(&self, tier: Tier) -> BoxedStrategy<CrashCase> {
         let random = proptest::collection::vec(0usize..PAR_TOKENS_PUB.len(), 0..40).prop_map(|v| v.into_iter().map(|i| PAR_TOKENS_PUB[i]).collect::<Vec<_>>().join(" "));
@@ -124,12 +124,36 @@ impl Check for C30 {
         (base, tape(8..24), any::<u8>(), proptest::collection::vec((0u32..12, 0u32..40), 6))
             .prop_map(|(t, tp, style, extra)| {
                 let mut text = mutate_text_pub(&t, &mut Tape { data: &tp, pos: 0 });
-                if style % 3 == 0 {
-                    text = text.replace('\n', "\r\n");
-                }
                 if style % 4 == 0 {
                     text = text.replacen("%%", "// \u{e4}\u{4e2d}\u{1F600} comment\n%%", 1);
                 }
+                // line ends: all LF, all CRLF, or chosen per line (mixed documents); multi-byte
+                // characters at the start, in the middle (inside a comment) and at the end of lines
+                let mode = style % 3;
+                let mut t2 = Tape { data: &tp, pos: 0 };
+                let lines: Vec<String> = text.split('\n').map(|l| l.to_string()).collect();
+                let n = lines.len();
+                let mut out = String::new();
+                for (i, mut l) in lines.into_iter().enumerate() {
+                    if style & 0x10 != 0 {
+                        match t2.next(6) {
+                            3 => l.push_str(" //\u{fc}"),
+                            4 => l.push_str(" // \u{e4}\u{4e2d}\u{1F600}\u{e9}"),
+                            5 => l = format!("/*\u{fc}\u{e4}\u{f6}*/{l}"),
+                            _ => {}
+                        }
+                    }
+                    out.push_str(&l);
+                    if i + 1 < n {
+                        let crlf = match mode {
+                            0 => false,
+                            1 => true,
+                            _ => t2.next(2) == 1,
+                        };
+                        out.push_str(if crlf { "\r\n" } else { "\n" });
+                    }
+                }
+                text = out;
                 let mut positions = extra;
                 let lines: Vec<&str> = text.split('\n').collect();
                 for (i, l) in lines.iter().enumerate().take(12) {
